@@ -47,26 +47,54 @@ def images (f : RV → RV) (n : Nat) : List RV := (List.range n).map fun j => f 
 
 def splitAt (v : RV) (k : Nat) : RV × RV := (⟨v.d.take k⟩, ⟨v.d.drop k⟩)
 
-/-- the stacked operator `Vstack([A, G])` and its adjoint -/
-def Kf (I : Inst) (x : RV) : RV :=
-  match I.G with
-  | none => I.Af x
-  | some G => (I.Af x).append (G.mulVec x)
-
-def KHf (I : Inst) (u : RV) : RV :=
-  match I.G with
-  | none => I.AHf u
-  | some G => let (u1, u2) := splitAt u I.A.rows.length; I.AHf u1 + G.tMulVec u2
+/-- vectors of the product space `Pair RV RV` travel as one concatenated list -/
+def toPair (k : Nat) (u : RV) : Pair RV RV := let (a, b) := splitAt u k; ⟨a, b⟩
+def ofPair (p : Pair RV RV) : RV := p.fst.append p.snd
 
 def dualDim (I : Inst) : Nat :=
   I.A.rows.length + (match I.G with | none => 0 | some G => G.rows.length)
 
-def proxfcEval (I : Inst) (su : PdhgSetup Rat RV RV RV) (a : Rat) (u : RV) : RV :=
-  match su.proxfc2 with
-  | none => su.proxfc1.eval (fun _ v => v) a u
-  | some p2 =>
-    let (u1, u2) := splitAt u I.A.rows.length
-    (su.proxfc1.eval (fun _ v => v) a u1).append (p2.eval I.userProx a u2)
+/-- the fields of a generated `PdhgArgs` flattened to functions on `RV` (dual vectors concatenated) -/
+structure PdhgFlat where
+  K : RV → RV
+  KH : RV → RV
+  proxfc : Rat → RV → RV
+  proxg : Rat → RV → RV
+  tau : Rat
+  sigma : Rat
+  gammaP : Rat
+  gammaD : Rat
+  side : String
+  E : List RV
+
+def pdhgFlat (I : Inst) (tau sigma : Option Rat) (me : Rat) : PdhgFlat :=
+  let m := I.A.rows.length
+  match I.G with
+  | none =>
+    let su := Gen.C14.pdhgArgsNoG I.Af I.AHf I.y I.lam I.z I.prox.isSome tau sigma me
+    let (side, E) := match su.eig with
+      | .primal f => ("primal", images f I.n)
+      | .dual f => ("dual", images f m)
+      | .none => ("none", [])
+    { K := su.K, KH := su.KH, proxfc := su.proxfc.eval (fun _ v => v), proxg := su.proxg.eval I.userProx,
+      tau := su.tau, sigma := su.sigma, gammaP := su.gammaP, gammaD := su.gammaD, side := side, E := E }
+  | some G =>
+    let su := Gen.C14.pdhgArgsG I.Af I.AHf G.mulVec G.tMulVec I.y I.lam I.z I.prox.isSome tau sigma me
+    let (side, E) := match su.eig with
+      | .primal f => ("primal", images f I.n)
+      | .dual f => ("dual", images (fun u => ofPair (f (toPair m u))) (dualDim I))
+      | .none => ("none", [])
+    { K := fun x => ofPair (su.K x), KH := fun u => su.KH (toPair m u),
+      proxfc := fun a u => ofPair (su.proxfc.eval (fun _ v => v) I.userProx a (toPair m u)),
+      proxg := su.proxg.eval (fun _ v => v),
+      tau := su.tau, sigma := su.sigma, gammaP := su.gammaP, gammaD := su.gammaD, side := side, E := E }
+
+/-- the generated `AdmmArgs` of the instance (`Z = RV` in both variants) -/
+def admmOf (I : Inst) (rho : Rat) : AdmmArgs Rat RV RV :=
+  let pr : Option (Rat → RV → RV) := I.prox.map fun p => p.eval
+  match I.G with
+  | none => Gen.C14.admmArgsNoG I.Af I.AHf I.y I.lam I.z rho pr
+  | some G => Gen.C14.admmArgsG I.Af I.AHf G.mulVec G.tMulVec I.y I.lam I.z rho pr
 
 def zip3 {α β γ : Type} : List α → List β → List γ → List (α × β × γ)
   | a :: as, b :: bs, c :: cs => (a, b, c) :: zip3 as bs cs
@@ -92,47 +120,41 @@ def handle (toks : List String) : String :=
   | some "cg-setup" =>
     match parseInst? toks with
     | some I =>
-      s!"ok M={fmtVecs (images (cgSys I.Af I.AHf I.lam) I.n)} b={fmtVec (cgRhs I.AHf I.y I.lam I.z)}"
+      let a := Gen.C14.cgArgs I.Af I.AHf I.y I.lam I.z
+      s!"ok M={fmtVecs (images a.sys I.n)} b={fmtVec a.rhs}"
     | none => "err bad-op"
   | some "gm-setup" =>
     match parseInst? toks, getVs "px", getO "alpha", getR "maxeig" with
     | some I, some px, some alpha, some me =>
-      let g := px.map (gmGrad I.Af I.AHf I.y I.lam I.z)
-      s!"ok E={fmtVecs (images (gmEigOp I.Af I.AHf I.lam) I.n)} g={fmtVecs g} alpha={fmtRat (gmAlpha alpha me)}"
+      let a := Gen.C14.gmArgs I.Af I.AHf I.y I.lam I.z alpha me
+      let (side, E) := match a.eig with
+        | .primal f => ("primal", images f I.n)
+        | .dual f => ("dual", images f I.n)
+        | .none => ("none", [])
+      s!"ok side={side} E={fmtVecs E} g={fmtVecs (px.map a.gradf)} alpha={fmtRat a.alpha}"
     | _, _, _, _ => "err bad-op"
   | some "pdhg-setup" =>
     match parseInst? toks, getO "tau", getO "sigma", getR "maxeig", (kv toks "pa").bind parseRatList?,
           getVs "pu", getVs "px" with
     | some I, some tau, some sigma, some me, some pa, some pu, some px =>
-      let su : PdhgSetup Rat RV RV RV := pdhgSetup I.y I.lam I.z I.prox.isSome I.G.isSome
-      let fc := (List.zip pa pu).map fun (a, u) => proxfcEval I su a u
-      let pg := (List.zip pa px).map fun (a, x) => su.proxg.eval I.userProx a x
-      let (side, E) :=
-        match pdhgEigSide tau sigma with
-        | .primal s => ("primal", images (fun x => KHf I (s • Kf I x)) I.n)
-        | .dual t => ("dual", images (fun u => Kf I (t • KHf I u)) (dualDim I))
-        | .none => ("none", [])
-      let (t, s) := pdhgSteps tau sigma me
-      s!"ok K={fmtVecs (images (Kf I) I.n)} KH={fmtVecs (images (KHf I) (dualDim I))} fc={fmtVecs fc} pg={fmtVecs pg} gp={fmtRat su.gammaP} gd={fmtRat su.gammaD} side={side} E={fmtVecs E} tau={fmtRat t} sigma={fmtRat s}"
+      let su := pdhgFlat I tau sigma me
+      let fc := (List.zip pa pu).map fun (a, u) => su.proxfc a u
+      let pg := (List.zip pa px).map fun (a, x) => su.proxg a x
+      s!"ok K={fmtVecs (images su.K I.n)} KH={fmtVecs (images su.KH (dualDim I))} fc={fmtVecs fc} pg={fmtVecs pg} gp={fmtRat su.gammaP} gd={fmtRat su.gammaD} side={su.side} E={fmtVecs su.E} tau={fmtRat su.tau} sigma={fmtRat su.sigma}"
     | _, _, _, _, _, _, _ => "err bad-op"
   | some "admm-setup" =>
     match parseInst? toks, getR "rho", getVs "px", getVs "pv", getVs "pu" with
     | some I, some rho, some px, some pv, some pu =>
-      let pr : Option (Rat → RV → RV) := I.prox.map fun p => p.eval
-      match I.G with
-      | none =>
-        let M := images (admmSysNoG I.Af I.AHf I.lam rho) I.n
-        let r := (List.zip pv pu).map fun (v, u) => admmRhsNoG I.AHf I.y I.lam I.z rho v u
-        let v := (List.zip px pu).map fun (x, u) => admmV pr rho x u
-        let u := (zip3 px pu v).map fun (x, u, v) => admmU u x v
-        s!"ok M={fmtVecs M} r={fmtVecs r} v={fmtVecs v} u={fmtVecs u} Gx={fmtVecs px}"
-      | some G =>
-        let M := images (admmSysG I.Af I.AHf G.mulVec G.tMulVec I.lam rho) I.n
-        let r := (List.zip pv pu).map fun (v, u) => admmRhsG I.AHf G.tMulVec I.y I.lam I.z rho v u
-        let gx := px.map G.mulVec
-        let v := (List.zip gx pu).map fun (x, u) => admmV pr rho x u
-        let u := (zip3 gx pu v).map fun (x, u, v) => admmU u x v
-        s!"ok M={fmtVecs M} r={fmtVecs r} v={fmtVecs v} u={fmtVecs u} Gx={fmtVecs gx}"
+      let a := admmOf I rho
+      match zip3 px pv pu with
+      | [] => "err bad-op"
+      | (x0, v0, u0) :: _ =>
+        let M := images (a.minLx x0 v0 u0).sys I.n
+        let r := (zip3 px pv pu).map fun (x, v, u) => (a.minLx x v u).rhs
+        let v := (zip3 px pv pu).map fun (x, v, u) => a.minLv x v u
+        let u := (zip3 px pu v).map fun (x, u, v) => u + ⟨(a.A x + a.B v).d.map (· - a.c)⟩
+        let xi := (getV "x0").getD (RV.zeros I.n)
+        s!"ok M={fmtVecs M} r={fmtVecs r} v={fmtVecs v} u={fmtVecs u} v00={fmtVec (a.v0 xi)}"
     | _, _, _, _, _ => "err bad-op"
   | some "obj" =>
     match parseInst? toks, getV "x", kv toks "g" with
@@ -153,31 +175,33 @@ def handle (toks : List String) : String :=
         | some s => (parseVec? s).map fun d => fun r => ⟨List.zipWith (· * ·) d.d r.d⟩
       if solver == "cg" then
         if I.prox.isSome then "err reject" else
-        s!"ok {fmtVec (cgRun (cgSys I.Af I.AHf I.lam) P (cgRhs I.AHf I.y I.lam I.z) x0 iters)}"
+        let a := Gen.C14.cgArgs I.Af I.AHf I.y I.lam I.z
+        s!"ok {fmtVec (cgRun a.sys P a.rhs x0 iters)}"
       else if solver == "gm" then
         match getR "alpha", kv toks "acc" with
         | some alpha, some acc =>
           if I.G.isSome then "err reject" else
           let pr : Option (Rat → RV → RV) := I.prox.map fun p => p.eval
-          let tr := iterate (gmStep (gmGrad I.Af I.AHf I.y I.lam I.z) alpha pr (acc == "1")) iters
+          let a := Gen.C14.gmArgs I.Af I.AHf I.y I.lam I.z (some alpha) 1
+          let tr := iterate (gmStep a.gradf a.alpha pr (acc == "1")) iters
             { x := x0, z := x0, t := 1 }
           s!"ok {fmtVecs (tr.map (·.x))}"
         | _, _ => "err bad-op"
       else if solver == "pdhg" then
         match getR "tau", getR "sigma" with
         | some tau, some sigma =>
-          let su : PdhgSetup Rat RV RV RV := pdhgSetup I.y I.lam I.z I.prox.isSome I.G.isSome
-          let u2n := match I.G with | none => 0 | some G => G.rows.length
-          let tr := iterate (pdhgStep I su) iters
-            { x := x0, xExt := x0, u1 := RV.zeros I.A.rows.length, u2 := RV.zeros u2n, tau := tau, sigma := sigma,
-              tauMin := ratAbs tau, sigmaMin := ratAbs sigma }
+          let su := pdhgFlat I (some tau) (some sigma) 1
+          let tr := iterate (pdhgStep su.K su.KH su.proxfc su.proxg su.gammaP su.gammaD) iters
+            { x := x0, xExt := x0, u := RV.zeros (dualDim I), tau := su.tau, sigma := su.sigma,
+              tauMin := ratAbs su.tau, sigmaMin := ratAbs su.sigma }
           s!"ok {fmtVecs (tr.map (·.x))}"
         | _, _ => "err bad-op"
       else if solver == "admm" then
         match getR "rho", getN "maxcg" with
         | some rho, some maxcg =>
-          let v0 := match I.G with | none => x0 | some G => G.mulVec x0
-          let tr := iterate (admmStep I rho P maxcg) iters { x := x0, v := v0, u := RV.zeros v0.d.length }
+          let a := admmOf I rho
+          let v0 := a.v0 x0
+          let tr := iterate (admmStep a P maxcg) iters { x := x0, v := v0, u := RV.zeros v0.d.length }
           s!"ok {fmtVecs (tr.map (·.x))}"
         | _, _ => "err bad-op"
       else "err bad-op"
